@@ -78,6 +78,7 @@ TK_EXC = {"missed_parameter_error": "Missed", "wrong_parameter_error": "WrongVal
           "no_data_error": "NoData", "unsupported_method_error": "Unsupported",
           "not_enough_memory_error": "NotEnoughMemory", "cancelled_exception": "Cancelled",
           "eigendecomposition_error": "EigenFail"}
+PRED_IDS = {"Positivity": 0, "NonNegativity": 1, "InRange": 2, "InClosedRange": 3}
 CB_OF_TRAIT = {"needs_kernel": "CbKernel", "needs_distance": "CbDistance", "needs_features": "CbFeatures"}
 CB_OF_TPARAM = {"KernelCallback": "CbKernel", "DistanceCallback": "CbDistance", "FeaturesCallback": "CbFeatures"}
 # members of ImplementationBase that hold / wrap a user callback (checked against the constructor)
@@ -620,6 +621,9 @@ class Translator:
 
     # ---- predicates.hpp
     def predicates(self):
+        """every `template <typename T> struct P` of predicates.hpp: the body of operator()(T v) as a
+        conjunction of comparisons  v OP operand  (operand: a member initialised from a constructor
+        argument, a literal, std::numeric_limits<T>::epsilon()).  `a OP v` is read as `v OP' a`."""
         toks = self.T("tapkee/predicates.hpp")
         s = J(toks)
         preds = {}
@@ -638,37 +642,82 @@ class Translator:
                 if i1 not in pos or i2 not in pos:
                     fail("predicate %s: constructor shape" % name)
                 argmap = {f1: pos[i1], f2: pos[i2]}
+                for f in (f1, f2):
+                    if not re.search(r"\bT %s ;" % f, bs):
+                        fail("predicate %s: member %s is not declared `T %s;`" % (name, f, f))
             elif re.search(r"\b%s \(" % name, bs):
                 fail("predicate %s: constructor shape not understood" % name)
-            op = re.search(r"bool operator \( \) \( T (\w+) \) const \{ return (.*?) ; \}", bs)
+            op = re.search(r"bool operator \( \) \( (?:const )?T (?:& )?(\w+) \) const \{ return (.*?) ; \}", bs)
             if not op:
                 fail("predicate %s: operator() shape not understood" % name)
             v, expr = op.groups()
-            lo = hi = None
-            for part in expr.split(" && "):
-                part = part.strip()
-                pm = re.fullmatch(r"\(? ?(\w+) (>=|>|<=|<) (\w+) ?\)?", part)
-                if not pm or pm.group(1) != v:
-                    fail("predicate %s: comparison not understood: %s" % (name, part))
-                cmpop, rhs = pm.group(2), pm.group(3)
-                if rhs in argmap:
-                    bound = ("arg", argmap[rhs])
-                elif re.fullmatch(r"\d+", rhs):
-                    bound = ("lit", ("BInt", int(rhs)))
+            conj = []
+            for part in split_top(expr.split(), "&&"):
+                while part and part[0] == "(" and match_close(part, 0) == len(part) - 1:
+                    part = part[1:-1]
+                k = [i for i, t in enumerate(part) if t in (">", ">=", "<", "<=")]
+                # the `<` `>` of numeric_limits<T> are not comparisons
+                k = [i for i in k if not (part[i] == "<" and part[i - 1:i] == ["numeric_limits"])
+                     and not (part[i] == ">" and part[i - 3:i - 1] == ["numeric_limits", "<"])]
+                if len(k) != 1:
+                    fail("predicate %s: comparison not understood: %s" % (name, J(part)))
+                lhs, cmpop, rhs = part[:k[0]], part[k[0]], part[k[0] + 1:]
+                if lhs == [v]:
+                    other = rhs
+                elif rhs == [v]:
+                    other = lhs
+                    cmpop = {">": "<", ">=": "<=", "<": ">", "<=": ">="}[cmpop]
                 else:
-                    fail("predicate %s: bound %s not understood" % (name, rhs))
-                if cmpop in (">", ">="):
-                    if lo is not None:
-                        fail("predicate %s: two lower bounds" % name)
-                    lo = (cmpop == ">", bound)
+                    fail("predicate %s: comparison does not have the value on one side: %s" % (name, J(part)))
+                if v in other:
+                    fail("predicate %s: comparison not understood: %s" % (name, J(part)))
+                so = J(other)
+                neg = False
+                if other[:1] == ["-"] and len(other) == 2:
+                    neg, so = True, other[1]
+                if so in argmap and not neg:
+                    operand = ("field", argmap[so])
+                elif re.fullmatch(r"[\d.][\w.+-]*", so):
+                    kind, val = parse_number(so)
+                    operand = (kind, -val if neg else val)
+                elif so == "std :: numeric_limits < T > :: epsilon ( )":
+                    operand = ("eps",)
                 else:
-                    if hi is not None:
-                        fail("predicate %s: two upper bounds" % name)
-                    hi = (cmpop == "<", bound)
-            preds[name] = {"lo": lo, "hi": hi, "nargs": len(argmap)}
+                    fail("predicate %s: operand %s not understood" % (name, so))
+                conj.append(({">": "OpGt", ">=": "OpGe", "<": "OpLt", "<=": "OpLe"}[cmpop], operand))
+            if name not in PRED_IDS:
+                PRED_IDS[name] = max(PRED_IDS.values()) + 1
+                self.notes.append("new predicate " + name)
+            preds[name] = {"id": PRED_IDS[name], "conj": conj, "nargs": len(argmap)}
         if not preds:
             fail("predicates.hpp: no predicate found")
         return preds
+
+    @staticmethod
+    def instantiate(name, p, ty, exprs):
+        """P<ty>(exprs) as (lo, hi) = (strict?, bound expression) or None: the same function as
+        Validate_Model.instantiate (Properties_C14.generated_checks_are_the_predicate_bodies compares)"""
+        lo = hi = None
+        for cmpop, o in p["conj"]:
+            if o[0] == "field":
+                b = exprs[o[1]]
+            elif o[0] == "int":
+                b = ("BInt", o[1])
+            elif o[0] == "real":
+                if ty != "TScalar":
+                    fail("predicate %s<%s>: a floating literal compared with an integral value" % (name, ty))
+                b = ("BReal", o[1])
+            else:
+                b = ("BReal", Fraction(1, 2 ** 52)) if ty == "TScalar" else ("BInt", 0)
+            if cmpop in ("OpGt", "OpGe"):
+                if lo is not None:
+                    fail("predicate %s: two lower bounds" % name)
+                lo = (cmpop == "OpGt", b)
+            else:
+                if hi is not None:
+                    fail("predicate %s: two upper bounds" % name)
+                hi = (cmpop == "OpLt", b)
+        return lo, hi
 
     def make_check(self, kws, preds, kwident, predname, tytoks, argtoks, n_name, local_vars=None):
         if kwident not in kws:
@@ -687,14 +736,9 @@ class Translator:
             ex = Expr(a, n_name, kws, local_vars)
             exprs.append(ex.parse())
             convs += ex.convs
-
-        def bound(b):
-            if b is None:
-                return None
-            strict, (kind, x) = b
-            return (strict, exprs[x] if kind == "arg" else x)
-        return {"kw": kwident, "ty": TYPE_MAP[ty], "pred": predname, "lo": bound(p["lo"]), "hi": bound(p["hi"]),
-                "convs": convs}
+        lo, hi = self.instantiate(predname, p, TYPE_MAP[ty], exprs)
+        return {"kw": kwident, "ty": TYPE_MAP[ty], "pred": predname, "pred_id": p["id"], "args": exprs,
+                "lo": lo, "hi": hi, "convs": convs}
 
     CHECK_RE = re.compile(r"parameters \[ (\w+) \] \. checked \( \) \. satisfies \( (\w+) < ([^>]*) > \( (.*?) ?\) \) \. orThrow \( \)")
 
@@ -1245,6 +1289,286 @@ class Translator:
                 fail("no implementation class for method " + mname)
         return out
 
+    # ---- stichwort/parameter.hpp: the members that build / check / merge / read the set
+    def container(self):
+        toks = self.T("stichwort/parameter.hpp")
+        # class ParametersSet { ... }  (not the forward declaration)
+        ci = -1
+        for q in range(len(toks) - 2):
+            if toks[q] == "class" and toks[q + 1] == "ParametersSet" and toks[q + 2] == "{":
+                ci = q
+                break
+        if ci < 0:
+            fail("parameter.hpp: class ParametersSet not found")
+        ce = match_close(toks, ci + 2)
+        cls = toks[ci + 3:ce]
+        cs = J(cls)
+        if not re.search(r"typedef std :: map < std :: string , Parameter > ParametersMap ;", cs):
+            fail("ParametersSet: pmap is no longer a std::map<std::string, Parameter>")
+        if not re.search(r"typedef std :: list < std :: string > DuplicatesList ;", cs):
+            fail("ParametersSet: dups is no longer a std::list<std::string>")
+        if not re.search(r"private : ParametersMap pmap ; DuplicatesList dups ;", cs):
+            fail("ParametersSet: data members are not `ParametersMap pmap; DuplicatesList dups;`")
+        if not re.search(r"ParametersSet \( \) : pmap \( \) , dups \( \) \{ \}", cs):
+            fail("ParametersSet(): shape not understood")
+        if not re.search(r"ParametersSet \( const ParametersSet & (\w+) \) : pmap \( \1 \. pmap \) , dups \( \1 \. dups \) \{ \}", cs):
+            fail("ParametersSet copy constructor: shape not understood")
+        if not re.search(r"ParametersSet & operator = \( const ParametersSet & (\w+) \) \{ this -> pmap = \1 \. pmap ; "
+                         r"this -> dups = \1 \. dups ; return \* this ; \}", cs):
+            fail("ParametersSet::operator=: shape not understood")
+
+        def member(head, what, plist_re):
+            params, init, body = function_body(cls, head, what)
+            m = re.fullmatch(plist_re, J(params))
+            if not m or init not in ([], ["const"]):
+                fail("%s: signature not understood: ( %s ) %s" % (what, J(params), J(init)))
+            return m.groups(), parse_block(body)
+
+        out = {}
+        _, b = member(["void", "check", "("], "ParametersSet::check", r"")
+        out["check"] = self.cbody(b, {"what": "check"})
+        (ref,), b = member(["void", "checkTypes", "("], "ParametersSet::checkTypes", r"const ParametersSet & (\w+)")
+        out["check_types"] = self.cbody(b, {"what": "checkTypes", "argset": ref})
+        (pn,), b = member(["void", "add", "("], "ParametersSet::add", r"const Parameter & (\w+)")
+        out["add"] = self.cbody(b, {"what": "add", "param": pn})
+        (pg,), b = member(["void", "merge", "("], "ParametersSet::merge", r"const ParametersSet & (\w+)")
+        out["merge"] = self.cbody(b, {"what": "merge", "argset": pg})
+        (nm,), b = member(["Parameter", "operator", "[", "]", "("], "ParametersSet::operator[]", r"const std :: string & (\w+)")
+        out["index"] = self.cbody(b, {"what": "operator[]", "name": nm})
+        # ParametersSet& operator,(const Parameter& p) { add(p); return *this; }
+        (pn,), b = member(["ParametersSet", "&", "operator", ",", "("], "ParametersSet::operator,", r"const Parameter & (\w+)")
+        calls, ret = [], False
+        for st in b:
+            js = J(st[1]) if st[0] == "simple" else st[0]
+            if ret:
+                fail("ParametersSet::operator,: statement after return")
+            if js == "add ( %s )" % pn or js == "this -> add ( %s )" % pn:
+                calls.append(("CallAdd", "AParam"))
+            elif js == "return * this":
+                ret = True
+            else:
+                fail("ParametersSet::operator,: statement not understood: " + js)
+        if not ret:
+            fail("ParametersSet::operator,: does not return *this")
+        out["comma_set"] = calls
+        # the two members of Parameter that are defined after ParametersSet
+        rest = toks[ce:]
+        (pn,), b = (lambda r: (re.fullmatch(r"const Parameter & (\w+)", J(r[0])).groups(), parse_block(r[2])))(
+            function_body(rest, ["ParametersSet", "Parameter", "::", "operator", ",", "("], "Parameter::operator,"))
+        out["comma_param"] = self.cmake(b, pn, "Parameter::operator,")
+        r = function_body(rest, ["Parameter", "::", "operator", "ParametersSet", "("], "Parameter::operator ParametersSet")
+        if r[0]:
+            fail("Parameter::operator ParametersSet: takes arguments")
+        out["to_set"] = self.cmake(parse_block(r[2]), None, "Parameter::operator ParametersSet")
+        # hasSameTypeAs / name() of Parameter, the policy identity of ValueKeeper
+        ps = J(toks[:ci])
+        vk = J(self.T("stichwort/value_keeper.hpp"))
+        po = J(self.T("stichwort/policy.hpp"))
+        for text, pat, what in [
+            (ps, r"bool hasSameTypeAs \( const Parameter & (\w+) \) const \{ return keeper \. hasSameTypeAs \( \1 \. keeper \) ; \}", "Parameter::hasSameTypeAs"),
+            (ps, r"ParameterName name \( \) const \{ return parameter_name ; \}", "Parameter::name"),
+            (vk, r"bool hasSameTypeAs \( const ValueKeeper & (\w+) \) const \{ return policy == \1 \. policy ; \}", "ValueKeeper::hasSameTypeAs"),
+            (vk, r"template < typename T > inline bool isTypeCorrect \( \) const \{ return getPolicy < T > \( \) == policy ; \}", "ValueKeeper::isTypeCorrect"),
+            (vk, r"bool isInitialized \( \) const \{ return getPolicy < EmptyType > \( \) != policy ; \}", "ValueKeeper::isInitialized"),
+            (vk, r"template < typename T > explicit ValueKeeper \( const T & value \) : policy \( getPolicy < T > \( \) \)", "ValueKeeper(const T&)"),
+            (vk, r"ValueKeeper \( const ValueKeeper & (\w+) \) : policy \( \1 \. policy \)", "ValueKeeper copy constructor"),
+            (vk, r"ValueKeeper & operator = \( const ValueKeeper & (\w+) \) \{ policy -> free \( & value_ptr \) ; policy = \1 \. policy ; "
+                 r"policy -> clone \( & \( \1 \. value_ptr \) , & value_ptr \) ; return \* this ; \}", "ValueKeeper::operator="),
+            (vk, r"template < typename T > inline T getValue \( \) const \{ T \* v ; if \( ! isInitialized \( \) \) throw missed_parameter_error \( [^;]* \) ; "
+                 r"if \( isTypeCorrect < T > \( \) \) \{ [^{}]* \} else throw wrong_parameter_type_error \( [^;]* \) ; return \* v ; \}", "ValueKeeper::getValue"),
+            (po, r"template < typename T > TypePolicyBase \* getPolicy \( \) \{ static PointerTypePolicyImpl < T > policy ; return & policy ; \}", "getPolicy<T>"),
+        ]:
+            if not re.search(pat, text):
+                fail("%s: shape not understood (the model takes one policy object per C++ type as the type identity)" % what)
+        return out
+
+    def cmake(self, stmts, pn, what):
+        """ParametersSet pg; pg.add(*this); pg.add(p); return pg;  -> (init, [calls])"""
+        init, var, calls, ret = None, None, [], False
+        for st in stmts:
+            js = J(st[1]) if st[0] == "simple" else st[0]
+            if ret:
+                fail(what + ": statement after return")
+            m = re.fullmatch(r"ParametersSet (\w+)", js)
+            if m and var is None:
+                init, var = "InitEmpty", m.group(1)
+                continue
+            m = re.fullmatch(r"ParametersSet (\w+) = \* this|ParametersSet (\w+) \( \* this \)", js)
+            if m and var is None:
+                init, var = "InitThis", m.group(1) or m.group(2)
+                continue
+            if var is None:
+                fail(what + ": statement not understood: " + js)
+
+            def arg(a):
+                if a == "* this":
+                    return "AThis"
+                if pn is not None and a in (pn, "Parameter ( %s )" % pn):
+                    return "AParam"
+                fail(what + ": argument not understood: " + a)
+            m = re.fullmatch(r"%s \. add \( (.*) \)" % var, js)
+            if m:
+                calls.append(("CallAdd", arg(m.group(1))))
+                continue
+            m = re.fullmatch(r"%s \. merge \( (.*) \)" % var, js)
+            if m:
+                calls.append(("CallMergeSetOf", arg(m.group(1))))
+                continue
+            if js == "return " + var:
+                ret = True
+                continue
+            fail(what + ": statement not understood: " + js)
+        if not ret or init is None:
+            fail(what + ": does not build and return a ParametersSet")
+        return (init, calls)
+
+    @staticmethod
+    def c_irrelevant(toks):
+        """a statement that neither reads nor writes the map, writes the duplicate list, or leaves"""
+        bad = {"pmap", "throw", "return", "add", "merge", "this", "push_back", "push_front", "clear", "erase",
+               "insert", "emplace", "swap", "pop_back", "pop_front", "remove", "exit", "abort", "goto", "break",
+               "continue", "check", "checkTypes"}
+        if any(t in bad for t in toks):
+            return False
+        for i, t in enumerate(toks):
+            if t == "dups" and toks[i + 1:i + 4] not in ([".", "begin", "("], [".", "end", "("], [".", "empty", "("],
+                                                         [".", "size", "("], [".", "cbegin", "("], [".", "cend", "("]):
+                return False
+        return True
+
+    def ccond(self, toks, cx):
+        parts = split_top(toks, "&&")
+        if len(parts) > 1:
+            e = self.ccond(parts[-1], cx)
+            for part in reversed(parts[:-1]):
+                e = ("CcAnd", self.ccond(part, cx), e)
+            return e
+        if "||" in toks:
+            fail("%s: condition with || not understood: %s" % (cx["what"], J(toks)))
+        while toks and toks[0] == "(" and match_close(toks, 0) == len(toks) - 1:
+            toks = toks[1:-1]
+            return self.ccond(toks, cx)
+        if toks[:1] == ["!"]:
+            return ("CcNot", self.ccond(toks[1:], cx))
+        s = J(toks)
+        if s == "dups . empty ( )":
+            return ("CcDupsEmpty",)
+
+        def key(ks):
+            if cx.get("param") and ks == "%s . name ( )" % cx["param"]:
+                return "KParam"
+            if cx.get("name") and ks == cx["name"]:
+                return "KParam"
+            if cx.get("each") and ks == "%s . first" % cx["each"][0]:
+                return "KEach"
+            fail("%s: key expression not understood: %s" % (cx["what"], ks))
+        m = re.fullmatch(r"(?:(\w+) \. )?pmap \. count \( (.*?) \)( > 0| != 0)?", s)
+        if m:
+            who = "WThis" if m.group(1) is None else ("WArg" if m.group(1) == cx.get("argset") else None)
+            if who is None:
+                fail("%s: condition not understood: %s" % (cx["what"], s))
+            return ("CcHas", who, key(m.group(2)))
+        m = re.fullmatch(r"(\w+) (!=|==) (?:(\w+) \. )?pmap \. end \( \)", s)
+        if m and m.group(1) in cx.get("iters", {}):
+            who, k = cx["iters"][m.group(1)]
+            w2 = "WThis" if m.group(3) is None else ("WArg" if m.group(3) == cx.get("argset") else None)
+            if w2 != who:
+                fail("%s: iterator compared with the end of another map: %s" % (cx["what"], s))
+            e = ("CcHas", who, k)
+            return e if m.group(2) == "!=" else ("CcNot", e)
+        m = re.fullmatch(r"(\w+) \. second \. hasSameTypeAs \( (\w+) -> second \)", s)
+        if m and cx.get("each") and m.group(1) == cx["each"][0] and cx["each"][1] == "WThis" and \
+                cx.get("iters", {}).get(m.group(2)) == ("WArg", "KEach"):
+            return ("CcSameType",)
+        fail("%s: condition not understood: %s" % (cx["what"], s))
+
+    def cbody(self, stmts, cx):
+        """statements of a ParametersSet member -> cstmt tree (nested tuples)"""
+        cx = dict(cx)
+        cx.setdefault("iters", {})
+        out = []
+        for st in stmts:
+            kind = st[0]
+            if kind == "block":
+                out.append(self.cbody(st[1], cx))
+            elif kind == "if":
+                c = self.ccond(st[1], cx)
+                t = self.cbody([st[2]], cx)
+                e = self.cbody([st[3]], cx) if st[3] is not None else ("CsSkip",)
+                out.append(("CsIf", c, t, e))
+            elif kind == "loop":
+                head = J(st[1])
+                m = re.fullmatch(r"(?:const )?auto (?:& )?(\w+) : (?:(\w+) \. )?pmap", head)
+                if m:
+                    who = "WThis" if m.group(2) is None else ("WArg" if m.group(2) == cx.get("argset") else None)
+                    if who is None or cx.get("each"):
+                        fail("%s: loop not understood: %s" % (cx["what"], head))
+                    sub = dict(cx, each=(m.group(1), who), iters=dict(cx["iters"]))
+                    out.append(("CsForEach", who, self.cbody([st[2]], sub)))
+                elif self.c_irrelevant(st[1]) and self.c_irrelevant_stmt(st[2]):
+                    pass
+                else:
+                    fail("%s: loop not understood: %s" % (cx["what"], head))
+            elif kind == "simple":
+                toks = st[1]
+                s = J(toks)
+                m = re.fullmatch(r"throw (\w+) \( .* \)", s)
+                if m:
+                    if m.group(1) not in SW_EXC:
+                        fail("%s: throws %s" % (cx["what"], m.group(1)))
+                    out.append(("CsThrow", SW_EXC[m.group(1)]))
+                    continue
+                if s == "return":
+                    out.append(("CsReturn",))
+                    continue
+                if cx.get("param") and s == "dups . push_back ( %s . name ( ) )" % cx["param"]:
+                    out.append(("CsPushDup", "KParam"))
+                    continue
+                if cx.get("param") and s == "pmap [ %s . name ( ) ] = %s" % (cx["param"], cx["param"]):
+                    out.append(("CsAssign", "KParam"))
+                    continue
+                if cx.get("each") and s == "pmap [ %s . first ] = %s . second" % (cx["each"][0], cx["each"][0]):
+                    out.append(("CsAssign", "KEach"))
+                    continue
+                m = re.fullmatch(r"ParametersMap :: const_iterator (\w+) = (?:(\w+) \. )?pmap \. find \( (.*) \)", s)
+                if m:
+                    who = "WThis" if m.group(2) is None else ("WArg" if m.group(2) == cx.get("argset") else None)
+                    ks = m.group(3)
+                    if cx.get("each") and ks == "%s . first" % cx["each"][0]:
+                        k = "KEach"
+                    elif cx.get("name") and ks == cx["name"]:
+                        k = "KParam"
+                    else:
+                        k = None
+                    if who is None or k is None:
+                        fail("%s: find not understood: %s" % (cx["what"], s))
+                    cx["iters"][m.group(1)] = (who, k)
+                    continue
+                m = re.fullmatch(r"return (\w+) -> second", s)
+                if m and cx["iters"].get(m.group(1)) == ("WThis", "KParam"):
+                    out.append(("CsReturnFound", "KParam"))
+                    continue
+                if self.c_irrelevant(toks):
+                    continue
+                fail("%s: statement not understood: %s" % (cx["what"], s))
+            else:
+                fail("%s: statement kind %s not understood" % (cx["what"], kind))
+        if not out:
+            return ("CsSkip",)
+        e = out[-1]
+        for x in reversed(out[:-1]):
+            e = ("CsSeq", x, e)
+        return e
+
+    def c_irrelevant_stmt(self, st):
+        if st is None:
+            return True
+        if st[0] == "simple":
+            return self.c_irrelevant(st[1])
+        if st[0] == "block":
+            return all(self.c_irrelevant_stmt(x) for x in st[1])
+        return False
+
     # ---- everything
     def run(self):
         kws = self.keywords()
@@ -1258,9 +1582,10 @@ class Translator:
         using_stages, handled = self.embed_using(methods)
         stages, rethrow = self.embed(kws, base_stages, using_stages)
         bodies = self.method_bodies(kws, preds, enums, methods, helpers)
-        # stichwort container: operator[] / add / check / merge are modelled by hand in
-        # Validate_Model.v; their behaviour is tied by the correspondence run, not here.
-        return {"kws": kws, "methods": methods, "enums": enums, "defaults": dflt, "preds": preds,
+        # stichwort container: the walker of Validate_Model.v has its own add / check / merge / lookup;
+        # the bodies are emitted as gen_container and proved equal to them (Validate_Proof_Bodies.v)
+        cont = self.container()
+        return {"container": cont, "kws": kws, "methods": methods, "enums": enums, "defaults": dflt, "preds": preds,
                 "stages": stages, "rethrow": rethrow, "handled": handled, "bodies": bodies,
                 "notes": self.notes}
 
@@ -1368,7 +1693,66 @@ def emit_coq(t):
     L.append("  {| t_kwtypes := gen_kwtypes; t_defaults := gen_defaults; t_stages := gen_stages;")
     L.append("     t_methods := gen_methods; t_rethrow := gen_rethrow |}.")
     L.append("")
+    # ---- bodies (wave 2): predicates.hpp operator(), every use of a predicate, stichwort container
+    L.append("(* predicates.hpp: the body of operator()(T v) of every predicate object *)")
+    ps = sorted(t["preds"].items(), key=lambda kv: kv[1]["id"])
+    for name, pr in ps:
+        L.append("Definition gen_pred_%s : pbody :=" % name)
+        L.append("  {| pb_id := %d; pb_nargs := %d; pb_conj := [%s] |}." % (
+            pr["id"], pr["nargs"], "; ".join("(%s, %s)" % (op, coq_operand(o)) for op, o in pr["conj"])))
+    L.append("Definition gen_predicates : list pbody := [" + "; ".join("gen_pred_" + n for n, _ in ps) + "].")
+    L.append("")
+    L.append("(* every parameters[k].checked().satisfies(P<T>(args)) in the order of Validate_Model.checks_of *)")
+    L.append("Definition gen_pred_uses : list pred_use :=")
+    L.append("  [" + ";\n   ".join(
+        "{| pu_pred := %d; pu_kw := %d; pu_ty := %s; pu_args := [%s] |}" % (
+            c["pred_id"], kws[c["kw"]]["id"], c["ty"], "; ".join(coq_bexpr(a) for a in c["args"]))
+        for c in all_checks(t)) + "].")
+    L.append("")
+    ct = t["container"]
+    L.append("(* stichwort/parameter.hpp: members of ParametersSet / Parameter (see Validate_Model.container) *)")
+    L.append("Definition gen_container : container :=")
+    L.append("  {| ct_check := %s;" % coq_cstmt(ct["check"]))
+    L.append("     ct_check_types := %s;" % coq_cstmt(ct["check_types"]))
+    L.append("     ct_add := %s;" % coq_cstmt(ct["add"]))
+    L.append("     ct_merge := %s;" % coq_cstmt(ct["merge"]))
+    L.append("     ct_index := %s;" % coq_cstmt(ct["index"]))
+    L.append("     ct_comma_set := %s;" % coq_calls(ct["comma_set"]))
+    L.append("     ct_comma_param := (%s, %s);" % (ct["comma_param"][0], coq_calls(ct["comma_param"][1])))
+    L.append("     ct_to_set := (%s, %s) |}." % (ct["to_set"][0], coq_calls(ct["to_set"][1])))
+    L.append("")
     return "\n".join(L)
+
+
+def coq_operand(o):
+    if o[0] == "field":
+        return "OField %d" % o[1]
+    if o[0] == "int":
+        return "OInt %s" % coq_Z(o[1])
+    if o[0] == "real":
+        return "OReal %s" % coq_Q(o[1])
+    return "OEpsilon"
+
+
+def coq_cstmt(e):
+    if not isinstance(e, tuple):
+        return str(e)
+    if len(e) == 1:
+        return e[0]
+    return "(" + " ".join([e[0]] + [coq_cstmt(x) for x in e[1:]]) + ")"
+
+
+def coq_calls(calls):
+    return "[" + "; ".join("%s %s" % c for c in calls) + "]"
+
+
+def all_checks(t):
+    """the check records in the order of Validate_Model.checks_of"""
+    out = [s[1] for s in t["stages"] if s[0] == "SCheck"]
+    for m in sorted(t["methods"].values(), key=lambda m: m["id"]):
+        v, e = t["bodies"][m["ident"]]
+        out += [x[1] for _, x in v if x[0] == "check"] + [x[1] for _, x in e if x[0] == "check"]
+    return out
 
 
 def js_value(v):
@@ -1417,6 +1801,9 @@ def emit_json(t):
         "stages": [js_stage(s) for s in t["stages"]],
         "rethrow": t["rethrow"],
         "notes": t["notes"],
+        "predicates": {n: {"id": pr["id"], "nargs": pr["nargs"],
+                           "conj": [[op, [str(x) for x in o]] for op, o in pr["conj"]]} for n, pr in t["preds"].items()},
+        "container": json.loads(json.dumps(t["container"])),
     }
 
 
